@@ -144,7 +144,7 @@ class Swarm:
 class EnvSim:
     def __init__(self, spec, modes, props, seed=0, tier="quick",
                  scripted=True, scenario=None, cfg=None, record=False,
-                 env=None):
+                 env=None, shadow_spec=None):
         import nasim
         from nasim.envs import NASimEnv
         self.record = [] if record else None
@@ -196,6 +196,30 @@ class EnvSim:
         # the public API to obtain the initial observation
         self.init_obs = None
         self._do_reset(first=True)
+        # optional second live environment with the same vector layout but
+        # other host configurations ('foreign_activity' inside one run)
+        self.shadow = None
+        self.shadow_spec = shadow_spec
+        if shadow_spec is not None and scripted:
+            self._make_shadow(shadow_spec)
+
+    def _make_shadow(self, spec):
+        from . import multisim
+
+        class _W:
+            pass
+        w = _W()
+        w.seed, w.tier, w.rnd = self.seed, self.tier, self.rnd
+        w.counters = core.Counters()
+        sh = EnvSim.__new__(EnvSim)
+        try:
+            multisim.sim_init(sh, spec, self.modes, w, None, None)
+        except SutError:
+            return
+        if sh.cfg.layout_signature() != self.cfg.layout_signature():
+            return          # different layouts cannot coexist (finding D10)
+        self.shadow = sh
+        self.counters.hit("fault.foreign_activity.shadow_env")
 
     def close(self):
         if self.seam is not None:
@@ -300,6 +324,15 @@ class EnvSim:
             self._exec_gstep(op)
         elif kind == "query":
             self.oracle.query(op)
+        elif kind == "shadow":
+            if self.shadow is not None:
+                self.counters.hit("fault.foreign_activity.shadow_step")
+                o = {k: v for k, v in op.items()}
+                o["op"] = "step"
+                self.shadow.rnd = self.rnd
+                self.shadow.exec_op(o)
+                if self.shadow.episode_over:
+                    self.shadow.exec_op({"op": "reset"})
         else:
             raise ValueError(kind)
 
@@ -350,8 +383,10 @@ class EnvSim:
             self.counters.hit("fault.encoding." + enc)
         if self.episode_over:
             self.counters.hit("fault.post_terminal")
-        rec = self.oracle.real_step(obj, x, plain, self._draws_for(op),
-                                    interpose=op.get("interpose"))
+        rec = self.oracle.real_step(
+            obj, x, plain, self._draws_for(op),
+            interpose=op.get("interpose"),
+            doc_noop=(op["op"] == "step" and op["a"][0] == "noop"))
         self.steps_total += 1
         self.rec_out("step", state=rec["post_t"].tobytes(),
                      obs=np.asarray(rec["obs_out"]).tobytes(),
@@ -366,6 +401,12 @@ class EnvSim:
         """Generate and execute ops.  wl: workload stream, fl: fault stream."""
         cfg = self.cfg
         for _ in range(swarm.n_ops):
+            if self.shadow is not None and wl.random() < 0.25:
+                g = self.shadow._gen_step(wl, fl, swarm)
+                g["op"] = "shadow"
+                g.pop("enc", None)
+                self.exec_op(g)
+                continue
             if self.episode_over and wl.random() > swarm.p_post_terminal:
                 op = {"op": "reset"}
             else:
@@ -400,6 +441,7 @@ class EnvSim:
             kinds.append("contains")
         if not kinds:
             kinds = ["goal", "mask", "readable", "roundtrip", "contains"]
+        kinds.append("readonly")
         what = wl.choice(kinds)
         src = "cur"
         if what == "goal" and self.state_sids and wl.random() < 0.5:
@@ -498,8 +540,8 @@ class EnvSim:
             enc = wl.choice(FLAT_ENCODINGS) if swarm.exotic_enc else "int"
         else:
             enc = wl.choice(PARAM_ENCODINGS) if swarm.exotic_enc else "list"
-            if wl.random() < 0.03:
-                vec = self._noop_vector(wl)
+            if wl.random() < (0.12 if self.props & {"C01", "C11"} else 0.03):
+                vec = self._noop_vector(wl, status)
                 if vec is not None:
                     return {"op": "step", "a": ["noop", [1, 0], "noop"],
                             "vec": vec, "enc": "list",
@@ -520,14 +562,20 @@ class EnvSim:
             op["interpose"] = inter
         return op
 
-    def _noop_vector(self, wl):
+    def _noop_vector(self, wl, status=None):
         """A parameter vector of an undefined exploit/escalation combination
         (documented to decode to the no-op), if there is one."""
         cfg = self.cfg
+        comp = [a for a in cfg.order if status and status[a][0]]
+        vis = [a for a in cfg.order if status and model.visible(status, a)]
         for _ in range(20):
             typ = wl.choice([0, 1])
             s = wl.randint(0, len(cfg.subnets) - 2)
             h = wl.randint(0, max(cfg.subnets[1:]) - 1)
+            pool = comp if (typ == 1 and comp) else vis
+            if pool and wl.random() < 0.6:
+                t = wl.choice(pool)
+                s, h = t[0] - 1, t[1]
             osi = wl.randint(0, len(cfg.os))
             sv = wl.randint(0, len(cfg.services) - 1)
             pr = wl.randint(0, len(cfg.processes) - 1)
@@ -578,15 +626,50 @@ def run_one(prop, tier, root, idx, extra):
     if tier == "thorough":
         swarm.n_ops = swarm.n_ops * 3
     res = {"idx": idx, "seed": seed}
+    shadow = None
+    if cfgr.random() < 0.25:
+        shadow = shadow_spec_for(spec)
     return execute(spec, modes, props, seed, tier, res,
-                   gen=(wl, fl, swarm))
+                   gen=(wl, fl, swarm), shadow=shadow)
 
 
-def execute(spec, modes, props, seed, tier, res, gen=None, ops=None):
+def shadow_spec_for(spec):
+    """A scenario with the same vector layout but other host configurations
+    (None if there is no obvious one)."""
+    if spec["kind"] == "generated":
+        p = dict(spec["params"])
+        p["seed"] = (p["seed"] + 1) % (2 ** 31)
+        return {"kind": "generated", "params": p}
+    if spec["kind"] == "genbench":
+        return {"kind": "genbench", "name": spec["name"],
+                "seed": spec["seed"] + 1}
+    if spec["kind"] == "yaml":
+        import yaml
+        from . import docgen
+        try:
+            doc = yaml.safe_load(spec["text"])
+            hosts = doc["host_configurations"]
+            keys = list(hosts)
+            if len(keys) < 2:
+                return None
+            cfgs = [(hosts[k]["os"], hosts[k]["services"],
+                     hosts[k]["processes"]) for k in keys]
+            cfgs = cfgs[1:] + cfgs[:1]
+            for k, (o, sv, pr) in zip(keys, cfgs):
+                hosts[k]["os"], hosts[k]["services"], \
+                    hosts[k]["processes"] = o, sv, pr
+            return {"kind": "yaml", "text": docgen.emit(doc)}
+        except Exception:
+            return None
+    return None
+
+
+def execute(spec, modes, props, seed, tier, res, gen=None, ops=None,
+            shadow=None):
     sim = None
     try:
         try:
-            sim = EnvSim(spec, modes, props, seed, tier)
+            sim = EnvSim(spec, modes, props, seed, tier, shadow_spec=shadow)
             if gen is not None:
                 sim.generate(*gen)
             else:
@@ -615,7 +698,8 @@ def execute(spec, modes, props, seed, tier, res, gen=None, ops=None):
         res["states"] = sorted(sim.state_digests)
         res["classes"] = sorted(sim.classes)
         res["trace"] = {"spec": spec, "modes": modes, "seed": seed,
-                        "props": sorted(props), "ops": sim.ops}
+                        "props": sorted(props), "ops": sim.ops,
+                        "shadow": shadow}
     else:
         res["ops"] = 0
         res["steps"] = 0
